@@ -51,6 +51,14 @@ func newReader(r io.Reader) *reader {
 	s := bufio.NewScanner(r)
 	// Lines (reads) may be longer than the scanner's default limit of 64 KiB.
 	s.Buffer(nil, math.MaxInt)
+	// After a read error the scanner hands out what is left in its buffer as a
+	// last line. That is a line cut short, not a line; report the error instead.
+	s.Split(func(data []byte, atEOF bool) (int, []byte, error) {
+		if atEOF && s.Err() != nil && bytes.IndexByte(data, '\n') < 0 {
+			return 0, nil, s.Err()
+		}
+		return bufio.ScanLines(data, atEOF)
+	})
 	return &reader{s: s}
 }
 
